@@ -453,6 +453,57 @@ tuple_bundle!(T0 0, T1 1, T2 2);
 tuple_bundle!(T0 0, T1 1, T2 2, T3 3);
 tuple_bundle!(T0 0, T1 1, T2 2, T3 3, T4 4);
 
+// ---- derived bundles (macros/src/bundle.rs): same meaning as the tuple of their fields
+#[derive(hecs::Bundle, hecs::DynamicBundleClone, Clone)]
+pub struct DAB {
+    pub a: A,
+    pub b: B,
+}
+#[derive(hecs::Bundle, hecs::DynamicBundleClone, Clone)]
+pub struct DESZ {
+    pub e: E,
+    pub s: S,
+    pub z: Z,
+}
+#[derive(hecs::Bundle, hecs::DynamicBundleClone, Clone)]
+pub struct DBA {
+    pub b: B,
+    pub a: A,
+}
+impl StaticBundle for DAB {
+    fn types() -> Vec<usize> {
+        vec![0, 1]
+    }
+    fn make(s: &[u64]) -> Self {
+        DAB { a: A::new(s[0]), b: B::new(s[1]) }
+    }
+    fn serials(&self) -> Vec<(usize, u64)> {
+        vec![(0, self.a.serial()), (1, self.b.serial())]
+    }
+}
+impl StaticBundle for DESZ {
+    fn types() -> Vec<usize> {
+        vec![4, 5, 7]
+    }
+    fn make(s: &[u64]) -> Self {
+        DESZ { e: E::new(s[0]), s: S::new(s[1]), z: Z::new(s[2]) }
+    }
+    fn serials(&self) -> Vec<(usize, u64)> {
+        vec![(4, self.e.serial()), (5, self.s.serial()), (7, self.z.serial())]
+    }
+}
+impl StaticBundle for DBA {
+    fn types() -> Vec<usize> {
+        vec![1, 0]
+    }
+    fn make(s: &[u64]) -> Self {
+        DBA { b: B::new(s[0]), a: A::new(s[1]) }
+    }
+    fn serials(&self) -> Vec<(usize, u64)> {
+        vec![(1, self.b.serial()), (0, self.a.serial())]
+    }
+}
+
 /// static bundle menu: `$body` is expanded with `$T` bound to menu entry `$k`
 #[macro_export]
 macro_rules! with_bundle {
@@ -490,16 +541,19 @@ macro_rules! with_bundle {
             28 => { type $T = (TK,); $body }
             29 => { type $T = (A, TK); $body }
             30 => { type $T = (TK, B, Z); $body }
+            31 => { type $T = DAB; $body }
+            32 => { type $T = DESZ; $body }
+            33 => { type $T = DBA; $body }
             // out-of-contract: a component type named twice (must be rejected by hecs)
-            31 => { type $T = (A, A); $body }
-            32 => { type $T = (B, A, B); $body }
+            34 => { type $T = (A, A); $body }
+            35 => { type $T = (B, A, B); $body }
             _ => panic!("harness: bad bundle menu index"),
         }
     }};
 }
-pub const NBUNDLES: usize = 31;
+pub const NBUNDLES: usize = 34;
 /// menu entries at and above `NBUNDLES` repeat a type
-pub const NBUNDLES_ALL: usize = 33;
+pub const NBUNDLES_ALL: usize = 36;
 
 /// smaller menu for the removed side of `exchange` (keeps monomorphisation count down)
 #[macro_export]
@@ -517,13 +571,15 @@ macro_rules! with_small_bundle {
             7 => { type $T = (D, A); $body }
             8 => { type $T = (S, E); $body }
             9 => { type $T = (C, A, B); $body }
-            10 => { type $T = (A, A); $body }
+            10 => { type $T = DAB; $body }
+            11 => { type $T = DESZ; $body }
+            12 => { type $T = (A, A); $body }
             _ => panic!("harness: bad small bundle menu index"),
         }
     }};
 }
-pub const NSMALL: usize = 10;
-pub const NSMALL_ALL: usize = 11;
+pub const NSMALL: usize = 12;
+pub const NSMALL_ALL: usize = 13;
 
 pub fn bundle_types(k: usize) -> Vec<usize> {
     with_bundle!(k, T, <T as StaticBundle>::types())
